@@ -8,9 +8,11 @@ processing), see harness/config_l1.py.
 Monitors: the property statement evaluated on the resulting config objects against the *generator's* facts
 (numprocs law by Python's own % operator, group membership, listener subscriptions, documented defaults parsed from
 docs/configuration.rst, environment precedence, ordering, rejection of every labelled constraint violation, no
-exception class other than ValueError / exit through usage()).
+exception class other than ValueError / exit through usage()), and per-process independence: every process of a
+numprocs > 1 section equals what the same file yields when that section is read with numprocs=1 and
+numprocs_start=<its process_num> (a fresh single-process expansion; monitor_independent).
 """
-import json, os, signal
+import json, os, re, signal
 import config_l1 as L
 
 ID = 'C14'
@@ -28,9 +30,12 @@ TRUSTED = [
 ASSUMPTIONS = ["the files are not modified between the two reads of one case", "the passwd database and the listed directories do not change during a run"]
 RULE = ("base cases = configurations generated from the documented option space (1-6 programs, numprocs up to 40, numprocs_start incl. negative, "
         "process_name/command/environment/logfile expansions incl. ENV_, group sections, eventlisteners, fcgi-programs, section order shuffled, "
-        "a quarter split over an included file); every base case is followed by its single-point corruptions (each typed option malformed, "
-        "each cross-option constraint, names, expansions, environment, events, sockets, [supervisord]); a case is distinct by the parser's view of "
-        "the file, non-trivial when it has at least one program-like section")
+        "a quarter split over an included file); in half of them the per-process dimension: numprocs > 1 x an environment= whose value refers to "
+        "its own variable through %(ENV_X)s (X inherited from os.environ or from the [supervisord] environment, optionally per process_num) x use of "
+        "the program's value in command / directory / log file names / process_name; every base case is followed by its single-point corruptions "
+        "(each typed option malformed, each cross-option constraint, names, expansions, environment, an ENV_ key of an earlier process, events, "
+        "sockets, [supervisord]); every accepted file with a numprocs > 1 section is re-read with that section cut down to single processes; a case "
+        "is distinct by the parser's view of the file, non-trivial when it has at least one program-like section")
 
 
 def fmt_in_subset(v):
@@ -74,6 +79,8 @@ def in_model_subset(parser):
                 return False
             if k == 'socket_owner':
                 return False
+            if k == 'socket' and v.startswith('unix:///') and (v == 'unix:///' or any(c in ('', '.', '..') for c in v[8:].split('/'))):
+                return False       # a unix socket path that normalize_path would change: outside the model (see TRUSTED)
             if any(ord(ch) > 127 and (ch.isdigit() or ch.lower() != ch or ch.upper() != ch) for ch in v) and k not in ('command',):
                 return False       # non-ASCII letters/digits in converted values: outside the modelled str methods
         if s == 'supervisord' and any(parser.has_option(s, o) for o in ('directory', 'logfile', 'loglevel', 'pidfile', 'childlogdir')):
@@ -182,6 +189,10 @@ def monitor_valid(ctx, cfg, out, inp):
                 d.update({'here': here, 'program_name': f['name'], 'group_name': group_name, 'host_node_name': L.platform.node(),
                           'process_num': num, 'numprocs': n})
                 penv = ref_env(f['environment'] % d) if f['environment'] else {}
+                # documented: the program's own environment is available as %(ENV_X)s to the rest of the section --
+                # for THIS process; d is built anew for every process_num
+                for k, v in penv.items():
+                    d['ENV_' + k] = v
                 name = (f['process_name'] % d).strip()
                 exp_names.append(name)
                 p = next((q for q in procs if q.name == name), None)
@@ -189,6 +200,9 @@ def monitor_valid(ctx, cfg, out, inp):
                     continue
                 if p.command != f['command'] % d:
                     ctx.violation('command-not-expanded-per-process', '%s:%s command %r, expected %r' % (gname, name, p.command, f['command'] % d), inp)
+                want_dir = f['opts']['directory'] % d if f['opts'].get('directory') is not None else None
+                if p.directory != want_dir:
+                    ctx.violation('directory-not-expanded-per-process', '%s:%s directory %r, expected %r' % (gname, name, p.directory, want_dir), inp)
                 env = dict(supenv); env.update(penv)
                 if p.environment != env:
                     ctx.violation('environment-precedence', '%s:%s environment %r, expected [supervisord] %r overridden by %r' % (gname, name, p.environment, supenv, penv), inp)
@@ -259,6 +273,101 @@ def monitor_accepted(ctx, out, inp, parser):
                 ctx.violation('accepted-malformed:exitcodes', 'process %s exitcodes %r' % (p.name, p.exitcodes), inp)
 
 
+_NUMPROCS_FMT = re.compile(r'%\(numprocs\)(0?[0-9]*)([ds])')
+
+
+def subst_numprocs(v, n):
+    """v with every %(numprocs)… conversion replaced by the text it stands for (%% escapes respected);
+    None when a reference remains that this scanner does not handle"""
+    out, i = [], 0
+    while i < len(v):
+        if v[i] != '%':
+            out.append(v[i]); i += 1
+        elif v.startswith('%%', i):
+            out.append('%%'); i += 2
+        else:
+            m = _NUMPROCS_FMT.match(v, i)
+            if m:
+                out.append((('%' + m.group(1) + m.group(2)) % n).replace('%', '%%')); i = m.end()
+            else:
+                out.append('%'); i += 1
+    r = ''.join(out)
+    return None if '(numprocs)' in r.replace('%%', '') else r
+
+
+def independence_plan(sections):
+    """{section index: (numprocs, numprocs_start, [offsets to re-read on their own])} for the numprocs > 1 sections"""
+    plan = {}
+    for idx, (sname, opts) in enumerate(sections):
+        if sname.split(':')[0] not in ('program', 'eventlistener', 'fcgi-program'):
+            continue
+        d = {k.lower(): v for k, v in opts}
+        try:
+            n, s = int(d.get('numprocs', '1')), int(d.get('numprocs_start', '0'))
+        except ValueError:
+            continue
+        if n < 2 or any(subst_numprocs(v, n) is None for _, v in opts):
+            continue
+        plan[idx] = (n, s, list(range(1, n)) if n <= 4 else sorted({1, n // 2, n - 1}))
+    return plan
+
+
+def monitor_independent(ctx, cfg, out, inp):
+    """the property's 'expanded per process': process number k of a section is what a fresh single-process expansion with
+    process_num = k gives.  The same file is re-read with every numprocs > 1 section replaced by numprocs=1,
+    numprocs_start=k (%(numprocs)… written out); every process of the re-read file must be a process of the original,
+    in the same group, equal in every observable."""
+    plan = independence_plan(cfg['sections'])
+    if not plan:
+        return
+    ctx.count('independence:files')
+    orig = {}
+    for g in out.options.configroot.supervisord.process_group_configs:
+        orig.setdefault(g.name, []).extend(L.proc_line(p) for p in g.process_configs)
+    rounds = max(len(v[2]) for v in plan.values())
+    try:
+        _independent_rounds(ctx, cfg, out, inp, plan, orig, rounds)
+    finally:
+        L.write_config(cfg, ctx.scratch, cfg['_tag'])      # the re-reads used the file names of the original (same %(here)s)
+
+
+def _independent_rounds(ctx, cfg, out, inp, plan, orig, rounds):
+    for t in range(rounds):
+        secs = []
+        chosen = {}
+        for idx, (sname, opts) in enumerate(cfg['sections']):
+            if idx not in plan:
+                secs.append((sname, opts)); continue
+            n, s, offs = plan[idx]
+            k = s + offs[t % len(offs)]
+            chosen[sname] = k
+            o2 = [(a, subst_numprocs(b, n)) for a, b in opts if a.lower() not in ('numprocs', 'numprocs_start')]
+            secs.append((sname, o2 + [('numprocs', '1'), ('numprocs_start', str(k))]))
+        path = L.write_config({'sections': secs, 'include': cfg.get('include') or []}, ctx.scratch, cfg['_tag'])
+        b = L.parse_with(L.make_options(L.ENV_VARS), path, reread=True)
+        ctx.count('independence:rereads')
+        what = 'sections re-read as single processes with process_num %r' % (chosen,)
+        if b.status != 'ok':
+            stale = 'cannot be expanded' in b.message and "('ENV_" in b.message
+            ctx.violation('process-depends-on-earlier:stale-program-env-key' if stale else 'process-depends-on-earlier:fresh-expansion-rejected',
+                          'the file is accepted, but %s are rejected (%s %s): a later process is only accepted thanks to what an earlier '
+                          'one left behind' % (what, b.status, b.message[:160]), inp)
+            return
+        for g in b.options.configroot.supervisord.process_group_configs:
+            have = orig.get(g.name, [])
+            for p in g.process_configs:
+                line = L.proc_line(p)
+                if line not in have:
+                    other = next((q for q in out.options.configroot.supervisord.process_group_configs if q.name == g.name), None)
+                    twin = next((q for q in (other.process_configs if other else []) if q.name == p.name), None)
+                    ctx.violation('process-depends-on-earlier',
+                                  '%s: group %s process %s alone: command %r environment %r directory %r stdout_logfile %r; among the numprocs '
+                                  'processes: %s' % (what, g.name, p.name, p.command, p.environment, p.directory, L._lf(p.stdout_logfile),
+                                                     'no process of that name' if twin is None else 'command %r environment %r directory %r stdout_logfile %r' % (
+                                                         twin.command, twin.environment, twin.directory, L._lf(twin.stdout_logfile))), inp)
+                    return
+
+
 def exc_kind(out, sections):
     return 'other-exception:' + out.status.split(' ', 1)[1]
 
@@ -288,6 +397,7 @@ def check_case(ctx, st, cfg, label, must_reject, tag):
         monitor_accepted(ctx, a, inp, a.parser)
         if must_reject is False:
             monitor_valid(ctx, cfg, a, inp)
+        monitor_independent(ctx, cfg, a, inp)
     elif a.status == 'err' and must_reject is False:
         ctx.violation('rejected-wellformed' + (':' + cfg['expect_kind'] if cfg.get('expect_kind') and cfg['expect_kind'] in NARROW_OK(a.message) else ''),
                       'a well-formed file was rejected: %s' % a.message[:200], inp)
@@ -345,6 +455,16 @@ def _facts(supenv, opts, **kw):
     return {'supenv': supenv, 'programs': [f], 'groups': [], 'listeners': [], 'fcgi': []}
 
 
+_F40N = [('command', 'x'), ('numprocs', '3'), ('numprocs_start', '2'), ('process_name', 'a%(process_num)d'),
+         ('stdout_logfile', '/tmp/a%%20b_%(process_num)d.log')]
+_C143 = [('command', '/bin/worker --slot=%(process_num)d --lib=%(ENV_LIBDIR)s'), ('process_name', '%(program_name)s_%(process_num)02d'),
+         ('numprocs', '4'), ('numprocs_start', '3'),
+         ('environment', 'PATH="/opt/app/bin:%(ENV_PATH)s",LIBDIR="%(ENV_LIBDIR)s/worker",SLOT="%(process_num)d"'),
+         ('stdout_logfile', '/tmp/%(program_name)s_%(process_num)d.log'), ('directory', '%(ENV_LIBDIR)s/%(process_num)d')]
+_C143B = [('command', '/bin/w %(ENV_VERIF_A)s'), ('process_name', 'w_%(ENV_VERIF_B)s_%(process_num)d'), ('numprocs', '3'),
+          ('environment', 'VERIF_B="%(ENV_VERIF_B)s.%(process_num)d",VERIF_A="pre:%(ENV_VERIF_A)s"'),
+          ('stderr_logfile', '/tmp/%(ENV_VERIF_B)s.err')]
+
 CORPUS = [
     # (label, must_reject, sections, facts for well-formed files, narrow kind suffix when a well-formed file is rejected)
     # F17 (fixed): forbidden characters reaching a process name through an expansion
@@ -362,9 +482,26 @@ CORPUS = [
     # F34 (fixed): the documented percent escape in the [supervisord] environment
     ('F34-documented-percent-escape', False, [('supervisord', [('environment', 'URI="/first%%20name"')]), ('program:a', [('command', 'x')])],
      _facts('URI="/first%%20name"', [('command', 'x')]), 'percent-escape-in-supervisord-environment'),
-    # F40 (open): the same escape in a program's log file name is still expanded twice
+    # F40 (fixed): the same escape in a program's log file name; a log file name is expanded once
     ('percent-escape-in-logfile', False, [('supervisord', []), ('program:a', [('command', 'x'), ('stdout_logfile', '/tmp/a%%20b.log')])],
      _facts(None, [('command', 'x'), ('stdout_logfile', '/tmp/a%%20b.log')]), 'percent-escape-in-logfile'),
+    ('F40-escaped-key-in-logfile', False, [('supervisord', []), ('program:a', [('command', 'x'), ('stderr_logfile', '/tmp/%%(program_name)s_%(program_name)s.err')])],
+     _facts(None, [('command', 'x'), ('stderr_logfile', '/tmp/%%(program_name)s_%(program_name)s.err')]), 'percent-escape-in-logfile'),
+    ('F40-escape-in-logfile-numprocs', False, [('supervisord', []), ('program:a', _F40N)], _facts(None, _F40N, numprocs=3, start=2, process_name='a%(process_num)d'),
+     'percent-escape-in-logfile'),
+    # F43 (fixed): an ENV_ key taken from the environment of an earlier process of the section is not visible to the later ones
+    ('F43-env-key-of-earlier-process', True, [('supervisord', []), ('program:w', [('command', '/bin/x %(ENV_A0)s'), ('process_name', 'w%(process_num)d'),
+                                                                                   ('numprocs', '2'), ('environment', 'A%(process_num)d="v%(process_num)d"'),
+                                                                                   ('stdout_logfile', 'NONE')])], None, None),
+    ('F43-env-key-of-earlier-process-in-directory', True, [('supervisord', []), ('program:w', [('command', '/bin/x'), ('process_name', 'w%(process_num)d'),
+                                                                                                ('numprocs', '3'), ('numprocs_start', '5'),
+                                                                                                ('environment', 'A%(process_num)d="v"'), ('directory', '/srv/%(ENV_A5)s')])], None, None),
+    # seeded change C14-3 (the expansion dictionary no longer rebuilt per process): the "prepend to an inherited variable" idiom
+    ('C14-3-extend-inherited-variable', False, [('supervisord', [('environment', 'LIBDIR="/srv/lib"')]), ('program:worker', _C143)],
+     _facts('LIBDIR="/srv/lib"', _C143, name='worker', numprocs=4, start=3, process_name='%(program_name)s_%(process_num)02d',
+            environment=dict(_C143)['environment']), None),
+    ('C14-3-extend-os-environ-variable', False, [('supervisord', []), ('program:w', _C143B)],
+     _facts(None, _C143B, name='w', numprocs=3, start=0, process_name='w_%(ENV_VERIF_B)s_%(process_num)d', environment=dict(_C143B)['environment']), None),
     # plain regression cases
     ('numprocs-40', None, [('supervisord', []), ('program:w', [('command', '/bin/w %(process_num)02d'), ('numprocs', '40'), ('numprocs_start', '-3'),
                                                                ('process_name', '%(program_name)s_%(process_num)03d')])], None, None),
@@ -387,7 +524,14 @@ def run(ctx):
         k += 1
     nbase = ctx.n(30, 180)
     for i in range(nbase):
-        cfg = L.gen_config(rng, ctx.scratch, small=(i % 3 == 0))
+        cfg = L.gen_config(rng, ctx.scratch, small=(i % 3 == 0), perproc=(i % 2 == 1))
+        for f in cfg['facts']['programs'] + cfg['facts']['listeners'] + cfg['facts']['fcgi']:
+            if f.get('threaded'):
+                ctx.count('perproc:self-referring-environment' + ('(numprocs>1)' if f['numprocs'] > 1 else '(numprocs=1)'))
+                ctx.count('perproc:inherited-from-' + ('os.environ' if '(ENV_VERIF_' in f['environment'] else 'supervisord-environment'))
+                for u in ('command', 'directory', 'stdout_logfile', 'stderr_logfile', 'process_name'):
+                    if '(ENV_' in f['opts'].get(u, '') and f['numprocs'] > 1:
+                        ctx.count('perproc:own-value-used-in-' + u)
         check_case(ctx, st, cfg, 'valid', False, 'v')
         for label, must, secs in L.corruptions(rng, cfg, per_class=1, everything=(ctx.tier == 'thorough' and i % 10 == 0)):
             c2 = {'sections': secs, 'include': [j for j in cfg['include'] if j < len(secs)] if len(secs) == len(cfg['sections']) else []}
@@ -405,11 +549,15 @@ def replay(ctx, data):
 
 
 # ---- MANIFEST metadata -----------------------------------------------------------------------
-TECHNIQUE = ("Lean 4 theorems over a table-driven model of configuration processing (option names, converters, defaults, word tables and "
-             "numeric guards regenerated from options.py/datatypes.py/docs on every run); differential correspondence against the real "
-             "ServerOptions on generated files and all their single-point corruptions; monitors restating the property on the real objects")
-LEVEL_TEXT = ("numprocs law, group membership, listener subscription, environment precedence, ordering and the rejection of every documented "
-              "constraint are proved for all parsed files (no bound on sections, options, numprocs); documented defaults = coded defaults is "
-              "decided over the generated tables; the model is tied to the code by the generated tables and by running both on the same files")
+TECHNIQUE = ("Lean 4 theorems over a table-driven model of configuration processing (option names, converters, defaults, word tables, "
+             "numeric guards and the placement of the statements binding the expansion dictionary of the numprocs loop regenerated from "
+             "options.py/datatypes.py/docs on every run); differential correspondence against the real ServerOptions on generated files and all "
+             "their single-point corruptions; monitors restating the property on the real objects, incl. a metamorphic re-read of every "
+             "numprocs > 1 section as single processes")
+LEVEL_TEXT = ("numprocs law, per-process independence of expansion (process k is what a fresh single-process expansion yields; over the generated "
+              "placement of the statements that rebuild the expansion dictionary inside the numprocs loop), group membership, listener subscription, "
+              "environment precedence, ordering and the rejection of every documented constraint are proved for all parsed files (no bound on "
+              "sections, options, numprocs); documented defaults = coded defaults is decided over the generated tables; the model is tied to the "
+              "code by the generated tables and by running both on the same files")
 LEVEL_NOTE = "trusts ConfigParser tokenisation, CPython string/int/% semantics outside the stated subset, the file system / passwd / importlib parameters"
 DESIGN_REF = "DESIGN.md section 6, C14"
